@@ -23,6 +23,9 @@ def chain_snapshots(ctx, rule, chain_field, what):
         if rv['k'] == 'agg' and rv.get('ak') == 'adt' and strip_generics(rv['adt']) == BP + 'QueueItem':
             n += 1
             g = guard_context(b, bb).get(COMP)
+            if chain_field not in rv['fields']:
+                ctx.need(rule, 'field `%s` of the queued nested-blueprint record' % chain_field, None)
+                continue
             i = rv['fields'].index(chain_field)
             pl = op_place(rv['ops'][i])
             sl, _ = backward_slice(b, pl['l'], defs, through_calls=False) if pl else ([], set())
